@@ -25,6 +25,9 @@ def interpolate_dataframe_time(
         if "direction" in name.lower():
             fp_discont = 360
             fp_period = 360
+        elif name.lower() == "longitude":
+            fp_discont = 180
+            fp_period = 360
         else:
             fp_discont = None
             fp_period = None
